@@ -28,6 +28,10 @@ class Boom(Exception):
     pass
 
 
+def _group_contains(group, exc) -> bool:
+    return any(e is exc or (isinstance(e, BaseExceptionGroup) and _group_contains(e, exc)) for e in group.exceptions)
+
+
 class _Run:
     def __init__(self, scen: dict, res: Result) -> None:
         self.scen = scen
@@ -64,6 +68,8 @@ class _Run:
         self.cb_count = 0
         self.fired_order: list[int] = []
         self.final_ran = False
+
+    second_raise = None
 
     def violate(self, clause, sig, msg=""):
         self.res.violate(P, clause, f"{sig} loop={self.kind}", msg)
@@ -260,8 +266,21 @@ class _Run:
             self.pipe(op["p"]).feed(b"z" * int(op.get("n", 1)))
             self.log.add("api", ["write", op["p"], op.get("n", 1)])
         elif kind == "raise":
-            if self.raised is not None or self.final_ran:
-                return  # at most one exception per run (the final ExitMainLoop counts)
+            if self.final_ran:
+                return
+            if self.raised is not None:
+                # A callback the loop had already dequeued for the same turn may still run after the first
+                # exception (not constrained).  If that one ends the loop "cleanly" with ExitMainLoop, the
+                # first, ordinary exception must still come out of run(): check_outcome keeps expecting it.
+                if op.get("second") and self.raised[1] != "exit" and self.second_raise is None and inside:
+                    from urwid import ExitMainLoop  # noqa: PLC0415
+
+                    exc2 = ExitMainLoop()
+                    self.second_raise = exc2
+                    self.log.add("raise", ["exit-after-exception", list(inside)])
+                    self.res.fault("raise_exit_after_exception_same_turn")
+                    raise exc2
+                return  # otherwise at most one exception per run (the final ExitMainLoop counts)
             ek = op["exc"]
             if ek == "exit":
                 from urwid import ExitMainLoop  # noqa: PLC0415
@@ -392,6 +411,7 @@ class _Run:
                 for it in self.idles.values():
                     it["stale"] = True
                 self.raised = None
+                self.second_raise = None
                 self.final_ran = False
                 self.dirty_seq = 0
                 self.cb_count = 0
@@ -444,6 +464,10 @@ class _Run:
         else:
             if how == "returned":
                 self.violate("C13.5", f"exception-in-{where}-swallowed", f"{ek}")
+            elif self.second_raise is not None and isinstance(exc, BaseExceptionGroup) and _group_contains(exc, inj):
+                # two callbacks of one turn failed: a loop built on structured concurrency (trio) reports both
+                # as a group; the injected exception did come out of run()
+                self.res.probe("two_exceptions_reported_as_group")
             elif exc is not inj:
                 self.violate(
                     "C13.5", f"exception-in-{where}:run-raised-other:{core.exc_signature(exc)}", core.format_exc(exc)
@@ -554,6 +578,15 @@ class LoopsEngine(Engine):
         if rng.random() < 0.45:
             tk, ti = rng.choice(targets)
             ops.append({"at": [tk, ti, rng.randint(0, 1) if tk != "alarm" else 0], "op": "raise", "exc": rng.choice(EXC_KINDS)})
+            if rng.random() < 0.35:
+                # other callbacks that may be served in the same loop turn (alarms due at the same instant, a watch)
+                # end the loop with ExitMainLoop if they still run after the first exception
+                same = [a for a in range(n_al) if (tk, ti) != ("alarm", a) and (tk != "alarm" or alarm_times[a] == alarm_times[ti])]
+                for a in same[:3]:
+                    ops.append({"at": ["alarm", a, 0], "op": "raise", "exc": "exit", "second": True})
+                for p in range(n_w):
+                    if (tk, ti) != ("watch", p):
+                        ops.append({"at": ["watch", p, 0], "op": "raise", "exc": "exit", "second": True})
         rets = [[tk, ti, rng.randrange(len(RETVALS))] for tk, ti in targets if rng.random() < 0.4]
         read_plans = {str(p): [rng.choice([0, 1, 1, 2]) for _ in range(rng.randint(0, 3))] for p in range(n_w)}
         t_end = 4.0
